@@ -348,7 +348,7 @@ CLAIMS = {
             "not_decided": "order/index arithmetic, LREM direction and count, set algebra results, random-pick distribution."},
     "C04": {"decided": "No score reaches SkipList::insert without a dominating NaN refusal of that value; refused multi-member ZADD adds nothing; key index, node links and length stay in step (pairing, re-score unlinks before linking, who-writes length); removing the last member removes the key; dispatcher arms with the right skip-list primitive; both comparators are the lexicographic (score, member) order with arguments in order; the three search loops agree (full comparator, advance on Less only); no in-place overwrite of a linked node's ordering key under a tie-admitting bare score comparison; every path after the index update links a node. An engine method that writes scores returns success only after handing the score to SkipList::insert (or after an exact == showed nothing changes). Each ZADD front end tests every parsed score for NaN itself, before the first engine call. Score-range answers come from a call that received both bounds (or sit behind exact tests of both); no score-range call gets the finite extremes f64::MIN / f64::MAX as a bound; rank ranges are dominated by a start-versus-length test in both directions and never clamp the stop from below; member bytes reach the engine unaltered. A range bound computed as `count - 1` is dominated by a comparison of that value with 0 or 1.",
             "not_decided": "correctness of the tower pointer surgery, comparator totality on -0/inf, agreement of rank and range queries (need execution or a proof of the data structure)."},
-    "C05": {"decided": "Error discipline and reply counting of the connection loop on all CFG paths: an Err from executing a frame is converted to an error reply unless Connection/Io; exactly one reply push per loop iteration and no mid-batch exit; protocol errors are queued/answered and the connection closed; line-framed reply payloads pass a CR/LF filter; nothing reachable from EXEC yields NoResponse; the loop draining the parser is left only when parse_frame reports an incomplete buffer or an error (no complete command is stranded until the next read). The parser loop drains complete frames; no protocol error is decided from bytes that have not arrived (length guard must cover what a non-panicking content test looks at); Io-class errors cannot leave a command handler. Once Connection::read has fed the parser it returns `data available` (no error / `nothing read` exit after a feed, path-sensitive). Every write to the non-blocking client socket is a partial write of write_buffer[write_offset..] whose returned count is added to write_offset (no write_all / write!). An inline form recognised by a fixed-length comparison has a prefix test answering `incomplete` for a partial arrival. The timeout pass sends its nil reply only under a still-Blocked test (one reply per timed-out command).",
+    "C05": {"decided": "Error discipline and reply counting of the connection loop on all CFG paths: an Err from executing a frame is converted to an error reply unless Connection/Io; exactly one reply push per loop iteration and no mid-batch exit; protocol errors are queued/answered and the connection closed; line-framed reply payloads pass a CR/LF filter; nothing reachable from EXEC yields NoResponse; the loop draining the parser is left only when parse_frame reports an incomplete buffer or an error (no complete command is stranded until the next read). The parser loop drains complete frames; no protocol error is decided from bytes that have not arrived (length guard must cover what a non-panicking content test looks at); Io-class errors cannot leave a command handler. Once Connection::read has fed the parser it returns `data available` (no error / `nothing read` exit after a feed, path-sensitive). Every write to the non-blocking client socket is a partial write of write_buffer[write_offset..] whose returned count is added to write_offset (no write_all / write!). An inline form recognised by a fixed-length comparison has a prefix test answering `incomplete` for a partial arrival. The timeout pass sends its nil reply only under a still-Blocked test (one reply per timed-out command). A (P)(UN)SUBSCRIBE handler that answers NoResponse has sent at least one frame on every path (the empty result has a reply of its own).",
             "not_decided": "TCP segmentation independence of the whole I/O state machine, reply order under partial writes."},
     "C06": {"decided": "Interprocedural, type-restricted taint from client/wire numbers (str::parse, RespFrame::Integer) to panicking arithmetic (MIR overflow/neg/div/bounds asserts), indexing/slicing APIs, allocation sizes, float->Duration and clock arithmetic, with bounds derived by abstract interpretation over dominating comparisons, min/max/clamp and casts; bounded parser recursion; no client-timed sleep; script execution bound; lock re-entrancy; stream IDs (hand-written parser) and numbers read back from the stream's atomics are sources too; interprocedural error-origin analysis: only listener errors can propagate through `?` to Server::run (whose Err ends the process). Stored deadlines are bounded by a constant (the dump writers' unchecked clock arithmetic relies on it); no error reaches Server::run from storage/handlers; all client-driven recursion is depth-bounded. No closure run under a lock-holding higher-order function re-acquires that lock (also through generic-bound trait calls); no client-controlled iteration count without a bound or a data-dependent break. Every loop of the Lua -> RESP reply conversion that reads the Lua state has an exit decided by an element budget shared by the whole conversion.",
             "not_decided": "index / slice arithmetic on positions derived from the length of the data being scanned (seeded change C06-glob-class-at-pattern-end-slices-past-the-end is recorded as not detected: the taint domain is numbers from the client / wire / file); absence of all panics (only input-tainted ones), memory exhaustion by legitimately large data, liveness under slow peers; bounds are hi/lo abstractions, not exact ranges."},
@@ -366,7 +366,7 @@ CLAIMS = {
             "not_decided": "reply equality after RESP->Lua conversion for every command and argument (two independent implementations; needs a differential run)."},
     "C13": {"decided": "Wake path pops only under a still-Blocked test, delivers on the Some edge and pushes back on failed delivery; an empty pop re-registers the client; a woken waiter loses all registrations under the registry lock; every list-growing arm notifies once per element; registry indexes and connection state updated together; both removal sites clean up; blocked connections polled. The decision to notify may depend on `something was pushed` (count > 0) only, never on the list's length; waiter queues keep FIFO order (no swap removal); unregistering removes every entry of the client. The timeout pass scans every registry on every call, or skips only under a cached deadline all of whose writes derive from the blocked clients' deadlines. Every Duration built from the parsed BLPOP/BRPOP timeout is reachable only through a non-zero test of that number (path-sensitive). After the wake-path pop every way out (also its error edge) answers the client or registers it again -- in the place its arrival time gives it, and after looking at its other keys; the loop executing the frames of one read stops once a frame left the connection blocked (known finding: it does not). The timeout pass answers a client once (reply under the still-Blocked test).",
             "not_decided": "FIFO service order, promptness, timeout accuracy, multiset conservation over whole histories."},
-    "C14": {"decided": "Per-connection sets and global maps updated together with the same connection id, emptied entries removed; acknowledged count = channels.len()+patterns.len() after the update; PUBLISH replies with the length of the list it delivers to; no per-connection de-duplication; pattern receivers only under a match test; closing connections always removed with full clean-up; a connection's subscription record is dropped only when both its channel and pattern sets are empty. Channel, pattern and payload bytes reach the subscription manager and the message formatters with no lossy / UTF-8-only decoding, case mapping, cutting or sorting on their interprocedural value flow. A channel / pattern entry is dropped from the global maps only when its subscriber set is empty.",
+    "C14": {"decided": "Per-connection sets and global maps updated together with the same connection id, emptied entries removed; acknowledged count = channels.len()+patterns.len() after the update; PUBLISH replies with the length of the list it delivers to; no per-connection de-duplication; pattern receivers only under a match test; closing connections always removed with full clean-up; a connection's subscription record is dropped only when both its channel and pattern sets are empty. Channel, pattern and payload bytes reach the subscription manager and the message formatters with no lossy / UTF-8-only decoding, case mapping, cutting or sorting on their interprocedural value flow. A channel / pattern entry is dropped from the global maps only when its subscriber set is empty. Every (P)(UN)SUBSCRIBE is acknowledged: the handlers, which send their replies themselves, send at least one frame on every path (nothing to unsubscribe from is answered with the nil-name acknowledgement).",
             "not_decided": "per-publisher order across connections, glob semantics of patterns (the matcher's backtracking algorithm is value-level: seeded change C14-glob-backtrack-pruning is recorded as not detected)."},
     "C15": {"decided": "Explicit-ID append dominated by the id > last_id test (refusal edge effect-free); only additions write the last-ID state (field and atomics together), trim/delete never; every entry-vector change has the matching length-counter update; dispatcher arms and failure atomicity; stream-mutating engine methods never remove the key (last-ID state survives emptying); the ID parser accumulates with checked arithmetic; XADD * is refused at the top of the ID space; ID arithmetic on client-chosen IDs is checked. Sequences looked up by binary search are kept sorted by every function that grows them; a ring buffer's readers see both slices; the XLEN counter moves by the number of entries really removed. Field names and values reach the engine as the client's bytes. The inclusive end of a range read is never a saturating decrement of a search insertion point (a range before the first entry is empty).",
             "not_decided": "range exactness (binary-search index arithmetic), auto-ID vs wall clock."},
